@@ -23,6 +23,16 @@ import (
 type intrinsicFn func(fr *frame, args []value) value
 
 // nativeFn is a host closure callable from interpreted code.
+type timerRec struct {
+	cell    *value
+	ch      *channel
+	elem    types.Type
+	fn      value
+	fired   bool
+	stopped bool
+	ticker  bool
+}
+
 type nativeFn struct {
 	name string
 	f    func(fr *frame, args []value) value
@@ -394,19 +404,25 @@ func init() {
 	reg("os.Getenv", func(fr *frame, args []value) value { return "" })
 	reg("os.LookupEnv", func(fr *frame, args []value) value { return tuple{"", false} })
 	reg("time.Sleep", func(fr *frame, args []value) value { fr.m.yield(fr); return nil })
-	// timers and tickers never fire within a run (stated in every harness that reaches them): the
-	// channel is real, nothing is ever sent on it; Stop/Reset are no-ops reporting an active timer.
-	mkTimer := func(fr *frame, typeName string, withChan bool) value {
+	// timers and tickers fire only when the harness says so (verifFireTimers): the channel is real, nothing is sent
+	// on it otherwise; a harness that never calls verifFireTimers states "timers never fire" as an assumption.
+	mkTimer := func(fr *frame, typeName string, withChan bool, fn value, ticker bool) value {
 		tn := fr.fn.Pkg.Type(typeName)
 		t := tn.Type()
 		cell := zero(t)
+		rec := &timerRec{fn: fn, ticker: ticker}
 		if withChan {
 			st := cell.(structure)
 			ci := structFieldIndex(t, "C")
 			ct := t.Underlying().(*types.Struct).Field(ci).Type().Underlying().(*types.Chan)
-			st[ci] = fr.m.newChan(1, ct.Elem())
+			rec.ch = fr.m.newChan(1, ct.Elem())
+			rec.elem = ct.Elem()
+			st[ci] = rec.ch
 		}
-		return &cell
+		p := &cell
+		rec.cell = p
+		fr.m.timers = append(fr.m.timers, rec)
+		return p
 	}
 	reg("time.ParseDuration", func(fr *frame, args []value) value {
 		d, err := time.ParseDuration(strOf(args[0]))
@@ -415,16 +431,60 @@ func init() {
 		}
 		return tuple{int64(d), iface{}}
 	})
-	reg("time.NewTicker", func(fr *frame, args []value) value { return mkTimer(fr, "Ticker", true) })
-	reg("time.NewTimer", func(fr *frame, args []value) value { return mkTimer(fr, "Timer", true) })
-	reg("time.AfterFunc", func(fr *frame, args []value) value { return mkTimer(fr, "Timer", false) })
+	reg("time.NewTicker", func(fr *frame, args []value) value { return mkTimer(fr, "Ticker", true, nil, true) })
+	reg("time.NewTimer", func(fr *frame, args []value) value { return mkTimer(fr, "Timer", true, nil, false) })
+	reg("time.AfterFunc", func(fr *frame, args []value) value { return mkTimer(fr, "Timer", false, args[1], false) })
 	reg("time.After time.Tick", func(fr *frame, args []value) value {
-		tm := mkTimer(fr, "Timer", true).(*value)
+		tm := mkTimer(fr, "Timer", true, nil, false).(*value)
 		t := fr.fn.Pkg.Type("Timer").Type()
 		return (*tm).(structure)[structFieldIndex(t, "C")]
 	})
-	reg("(*time.Ticker).Stop (*time.Ticker).Reset", func(fr *frame, args []value) value { return nil })
-	reg("(*time.Timer).Stop (*time.Timer).Reset", func(fr *frame, args []value) value { return true })
+	stopTimer := func(fr *frame, args []value) value {
+		p, _ := args[0].(*value)
+		for _, rec := range fr.m.timers {
+			if rec.cell == p {
+				wasActive := !rec.fired && !rec.stopped
+				rec.stopped = true
+				return wasActive
+			}
+		}
+		return false
+	}
+	reg("(*time.Ticker).Stop", func(fr *frame, args []value) value { stopTimer(fr, args); return nil })
+	reg("(*time.Ticker).Reset", func(fr *frame, args []value) value { return nil })
+	reg("(*time.Timer).Stop", stopTimer)
+	reg("(*time.Timer).Reset", func(fr *frame, args []value) value {
+		p, _ := args[0].(*value)
+		for _, rec := range fr.m.timers {
+			if rec.cell == p {
+				wasActive := !rec.fired && !rec.stopped
+				rec.fired, rec.stopped = false, false
+				return wasActive
+			}
+		}
+		return false
+	})
+	// verifFireTimers(): every pending timer expires now (channel timers deliver, AfterFunc functions start in their
+	// own goroutine, tickers tick once); returns how many fired.
+	harnessAPI["verifFireTimers"] = func(fr *frame, args []value) value {
+		m := fr.m
+		n := 0
+		for _, rec := range append([]*timerRec(nil), m.timers...) {
+			if rec.stopped || (rec.fired && !rec.ticker) {
+				continue
+			}
+			rec.fired = true
+			n++
+			if rec.ch != nil {
+				m.clock += 1000000
+				m.trySend(rec.ch, zero(rec.elem))
+			}
+			if rec.fn != nil {
+				m.spawn(fr, token.NoPos, rec.fn, nil)
+			}
+		}
+		return n
+	}
 	reg("time.runtimeNano time.now runtime.nanotime", func(fr *frame, args []value) value {
 		fr.m.clock += 1000
 		return fr.m.clock
